@@ -45,7 +45,7 @@ def evaluate(name):
             row["tests"] = "PATCH FAILED " + out[-200:]
             return row
         code, out = sh("timeout 900 /venv/bin/python -m pytest -q -p no:cacheprovider "
-                       "--timeout=900 2>&1 | tail -1", cwd=root)
+                       "--timeout=900 2>&1 | grep -E \"passed|failed|error\" | tail -1", cwd=root)
         row["tests"] = out.strip().splitlines()[-1] if out.strip() else "?"
         os.makedirs(os.path.join(root, "ev"))
         os.makedirs(os.path.join(root, "rp"))
